@@ -133,6 +133,8 @@ def cli_run(spec):
     warnings.simplefilter("ignore")
     top = spec["top"]
     os.chdir(spec["cwd"])
+    if spec.get("set_pwd"):
+        os.environ["PWD"] = spec["cwd"]      # what an interactive shell does after `cd <link>`
     _install_seams(spec)
     capdir = spec.get("capdir") or top
     outp = os.path.join(capdir, ".cap.out")
